@@ -710,11 +710,13 @@ func areaOtl(c *Ctx) {
 	}
 
 	// ---- feature lists
+	otlFLCrafted(c)
 	for i := 0; i < nFL; i++ {
 		otlGenFL(c, i)
 	}
 
 	otlGenCtxShapes(c)
+	otlGenCountFamilies(c)
 
 	// ---- lookup lists
 	otlLLSweep(c)
@@ -1764,6 +1766,68 @@ func init() {
 			return "ok:" + otlShowBytes(gtab.VerifEncodeFeatureList(otlParseFL(f["fl"])))
 		}))
 	}
+	// the result of the real readFeatureList, to be judged by the specification reader
+	ops["otl.fl.spec"] = func(f Fields) string {
+		return canonPanic(guard(func() string {
+			fl, err := gtab.VerifReadFeatureList(f.Hex("data"), 0)
+			if err != nil || otlShowFL(fl) != f["got"] {
+				return "stale-case"
+			}
+			return "ok"
+		}))
+	}
+	// post-condition of the subtable readers: every coverage index is an index of the array it indexes
+	ops["otl.sub.inrange"] = func(f Fields) string {
+		return canonPanic(guard(func() string {
+			var st gtab.Subtable
+			var err error
+			if f["kind"] == "gpos" {
+				st, err = gtab.VerifReadGposSubtable(f.Hex("data"), 0, uint16(f.Int("type")))
+			} else {
+				st, err = gtab.VerifReadGsubSubtable(f.Hex("data"), 0, uint16(f.Int("type")))
+			}
+			if err != nil {
+				return "ok"
+			}
+			chk := func(name string, cov coverage.Table, n int) string {
+				for g, idx := range cov {
+					if idx < 0 || idx >= n {
+						return fmt.Sprintf("fail:%s[%d]=%d>=%d", name, g, idx, n)
+					}
+				}
+				return ""
+			}
+			res := ""
+			switch t := st.(type) {
+			case *gtab.Gsub1_2:
+				res = chk("Cov", t.Cov, len(t.SubstituteGlyphIDs))
+			case *gtab.Gsub2_1:
+				res = chk("Cov", t.Cov, len(t.Repl))
+			case *gtab.Gsub3_1:
+				res = chk("Cov", t.Cov, len(t.Alternates))
+			case *gtab.Gsub4_1:
+				res = chk("Cov", t.Cov, len(t.Repl))
+			case *gtab.Gsub8_1:
+				res = chk("Input", t.Input, len(t.SubstituteGlyphIDs))
+			case *gtab.Gpos1_2:
+				res = chk("Cov", t.Cov, len(t.Adjust))
+			case *gtab.Gpos3_1:
+				res = chk("Cov", t.Cov, len(t.Records))
+			case *gtab.Gpos4_1:
+				res = chk("MarkCov", t.MarkCov, len(t.MarkArray)) + chk("BaseCov", t.BaseCov, len(t.BaseArray))
+			case *gtab.Gpos6_1:
+				res = chk("Mark1Cov", t.Mark1Cov, len(t.Mark1Array)) + chk("Mark2Cov", t.Mark2Cov, len(t.Mark2Array))
+			case *gtab.SeqContext1:
+				res = chk("Cov", t.Cov, len(t.Rules))
+			case *gtab.ChainedSeqContext1:
+				res = chk("Cov", t.Cov, len(t.Rules))
+			}
+			if res != "" {
+				return res
+			}
+			return "ok"
+		}))
+	}
 	ops["otl.fl.read"] = func(f Fields) string {
 		return canonPanic(guard(func() string {
 			fl, err := gtab.VerifReadFeatureList(f.Hex("data"), 0)
@@ -1772,6 +1836,59 @@ func init() {
 			}
 			return "ok:" + otlShowFL(fl)
 		}))
+	}
+}
+
+// otlFLRead: the reader on these bytes (V), and - if it accepts them - its result before the
+// specification reader (D)
+func otlFLRead(c *Ctx, b []byte, nontrivial bool) string {
+	o := c.Case(Verdict, "otl.fl.read", "data="+hx(b), nontrivial)
+	if strings.HasPrefix(o, "ok:") {
+		c.Case(Direct, "otl.fl.spec", fmt.Sprintf("data=%s got=%s", hx(b), o[3:]), nontrivial)
+	}
+	return o
+}
+
+// otlFLCrafted: feature lists the encoder never writes: records sharing one feature table, the same
+// tag twice, tags out of order, overlapping tables
+func otlFLCrafted(c *Ctx) {
+	w := func(ws ...int) []byte {
+		b := make([]byte, 0, 2*len(ws))
+		for _, x := range ws {
+			b = append(b, byte(x>>8), byte(x))
+		}
+		return b
+	}
+	rec := func(tag string, off int) []byte { return append([]byte(tag), byte(off>>8), byte(off)) }
+	cat := func(parts ...[]byte) []byte {
+		var b []byte
+		for _, p := range parts {
+			b = append(b, p...)
+		}
+		return b
+	}
+	for _, b := range [][]byte{
+		// three records, one table
+		cat(w(3), rec("aaaa", 20), rec("bbbb", 20), rec("cccc", 20), w(0, 2, 5, 7)),
+		// two records share the first table, the third has its own
+		cat(w(3), rec("kern", 20), rec("liga", 20), rec("mark", 26), w(0, 1, 3), w(0, 2, 1, 2)),
+		// the second and third record share a table
+		cat(w(3), rec("kern", 20), rec("liga", 26), rec("mark", 26), w(0, 1, 3), w(0, 2, 1, 2)),
+		// first and last share
+		cat(w(3), rec("kern", 20), rec("liga", 26), rec("mark", 20), w(0, 1, 3), w(0, 0)),
+		// the same tag twice, different tables
+		cat(w(2), rec("liga", 14), rec("liga", 20), w(0, 1, 3), w(0, 1, 4)),
+		// the same tag twice, one table
+		cat(w(2), rec("liga", 14), rec("liga", 14), w(0, 1, 3)),
+		// tags out of order, tables in reverse order
+		cat(w(3), rec("zzzz", 30), rec("mmmm", 26), rec("aaaa", 20), w(0, 1, 1), w(0, 0), w(0, 1, 9)),
+		// overlapping tables: the second starts inside the first
+		cat(w(2), rec("aaaa", 14), rec("bbbb", 16), w(0, 2, 0, 1, 6)),
+		// shared table with feature parameters offset set
+		cat(w(2), rec("ss01", 14), rec("ss02", 14), w(4, 1, 2)),
+	} {
+		o := otlFLRead(c, b, true)
+		c.Stat("fl.crafted", outcomeClass(o))
 	}
 }
 
@@ -1821,12 +1938,12 @@ func otlGenFL(c *Ctx, i int) {
 		return
 	}
 	b := gtab.VerifEncodeFeatureList(otlParseFL(strings.TrimPrefix(line, "fl=")))
-	c.Case(Verdict, "otl.fl.read", "data="+hx(b), n >= 2)
+	otlFLRead(c, b, n >= 2)
 	if len(b) <= 4000 {
 		for k := 0; k < 2; k++ {
 			m, mw := otlMutate(r, b)
 			c.Stat("fl.mutation", mw)
-			o := c.Case(Verdict, "otl.fl.read", "data="+hx(m), true)
+			o := otlFLRead(c, m, true)
 			c.Stat("fl.read-outcome", outcomeClass(o))
 		}
 	}
@@ -2873,6 +2990,70 @@ func otlGenCtx(c *Ctx, i int) {
 			c.Stat("ctx.mutation", mw)
 			o := c.Case(Verdict, "otl.gsub.read", fmt.Sprintf("type=%d data=%s", t2, hx(m)), true)
 			c.Stat("ctx.read-outcome", "mutated:"+outcomeClass(o))
+		}
+	}
+}
+
+// otlGenCountFamilies: every subtable with a count next to a coverage table, with the array shorter
+// and longer than the coverage (the encoders write what they are given); the readers must prune the
+// coverage or cut the array: V on the read, D on the post-condition of the real reader.
+func otlGenCountFamilies(c *Ctx) {
+	run := func(kind string, tp int, args string) {
+		op := "otl." + kind + ".encode"
+		out := c.Case(Verdict, op, args, true)
+		c.Stat("count-family", fmt.Sprintf("%s%d:encode:%s", kind, tp, outcomeClass(out)))
+		if !strings.HasPrefix(out, "ok:") {
+			return
+		}
+		f := parseFields(args)
+		var st gtab.Subtable
+		switch {
+		case kind == "gpos":
+			st = otlGposFromFields(f)
+		case f["st"][0] == 'c' || f["st"][0] == 'C':
+			st = otlCtxFromFields(f)
+		default:
+			st = otlGsubFromFields(f)
+		}
+		b := gtab.VerifSubtableEncode(st)
+		o := c.Case(Verdict, "otl."+kind+".read", fmt.Sprintf("type=%d data=%s", tp, hx(b)), true)
+		c.Stat("count-family", fmt.Sprintf("%s%d:read:%s", kind, tp, outcomeClass(o)))
+		c.Case(Direct, "otl.sub.inrange", fmt.Sprintf("kind=%s type=%d data=%s", kind, tp, hx(b)), true)
+	}
+	rep := func(x string, n int, sep string) string {
+		q := make([]string, n)
+		for k := range q {
+			q[k] = strings.ReplaceAll(x, "#", strconv.Itoa(k+1))
+		}
+		return strings.Join(q, sep)
+	}
+	for _, covs := range []string{"10-13", "10,12,20-21"} { // four glyphs, format 1 / format 2 or 1
+		for _, m := range []int{0, 2, 3, 5, 7} {
+			run("gsub", 1, fmt.Sprintf("st=12 cov=%s subs=%s", covs, rep("10#", m, ",")))
+			run("gsub", 2, fmt.Sprintf("st=21 cov=%s seqs=%s", covs, rep("3#.4#", m, "|")))
+			run("gsub", 3, fmt.Sprintf("st=31 cov=%s seqs=%s", covs, rep("5#", m, "|")))
+			run("gsub", 4, fmt.Sprintf("st=41 cov=%s ligs=%s", covs, rep("9#<1.2", m, "|")))
+			run("gsub", 8, fmt.Sprintf("st=81 cov=%s back=5 look= subs=%s", covs, rep("7#", m, ",")))
+			run("gsub", 5, fmt.Sprintf("st=c1 cov=%s sets=%s", covs, rep("/#/>0:1", m, "|")))
+			run("gsub", 6, fmt.Sprintf("st=C1 cov=%s sets=%s", covs, rep("3/#/4>0:1", m, "|")))
+			run("gpos", 1, fmt.Sprintf("st=12 cov=%s vrs=%s", covs, rep("0.0.#.0.0.0.0.0", m, ",")))
+			run("gpos", 3, fmt.Sprintf("st=31 cov=%s recs=%s", covs, rep("#.1.2.#", m, ",")))
+			for _, st := range []string{"41", "61"} {
+				// the mark array against the mark coverage, the base (mark2) array against its coverage
+				run("gpos", int(st[0]-'0'), fmt.Sprintf("st=%s mcov=%s bcov=30-33 marks=%s bases=%s", st, covs, rep("1.#.7", m, ","), rep("1.#,2.#", 4, ";")))
+				run("gpos", int(st[0]-'0'), fmt.Sprintf("st=%s mcov=40-43 bcov=%s marks=%s bases=%s", st, covs, rep("1.#.7", 4, ","), rep("1.#,2.#", m, ";")))
+			}
+		}
+	}
+	// GPOS 2.1: pairSetCount patched in the bytes (the structure is a map: no inconsistent value exists)
+	{
+		st := otlGposFromFields(parseFields("st=21 pairs=10>11:0.0.5.0.0.0.0.0/-;12>11:0.0.6.0.0.0.0.0/-;14>11:0.0.7.0.0.0.0.0/-"))
+		b := gtab.VerifSubtableEncode(st)
+		for _, cnt := range []int{0, 1, 2, 3} {
+			m := append([]byte{}, b...)
+			m[8], m[9] = 0, byte(cnt)
+			o := c.Case(Verdict, "otl.gpos.read", "type=2 data="+hx(m), true)
+			c.Stat("count-family", "gpos2.1:patched-count:"+outcomeClass(o))
 		}
 	}
 }
